@@ -303,3 +303,23 @@ Example C11_example_revisit_history_refused :
   view_at (fst (run0 cfg_fixed os_cached_dir)) [b "r"; b "victim"] = view_at fs0 [b "r"; b "victim"] /\
   view_at (fst (run0 cfg_fixed os_cached_dir)) [b "r"; b "w"; b "a"; b "e"] = VSym (b "q/..").
 Proof. exact cached_dir_fixed. Qed.
+
+(* ... and without the side condition: PreInv3 adds the third state InvF "a regular file sits where
+   the working directory should be" (what a named blob titled like the missing working directory
+   leaves behind; pushes below it fail, a failed verification removes it again).  For every
+   history, from a tree in any of the three states: everything outside the working directory is
+   untouched and the tree stays in one of the three states *)
+Theorem C11_confined_missing_wd :
+  forall (wd : path) (pres : bool) (cwd : path) (os : list pushop) (s s' : store) (oks : list bool),
+    PreInv3 wd (st_fs s) ->
+    pushes cfg_fixed pres wd cwd s os = (s', oks) ->
+    PreInv3 wd (st_fs s') /\
+    (forall p, inside wd p = false -> view_at (st_fs s') p = view_at (st_fs s) p).
+Proof. exact pushes_keeps3. Qed.
+Print Assumptions C11_confined_missing_wd.
+
+Example C11_example_wd_as_file :
+  snd (pushes cfg_fixed false wd0 cwd0 (mkStore fs3 [] []) os_wd_as_file) = [true; false; false; false; true] /\
+  lookup (st_fs (fst (pushes cfg_fixed false wd0 cwd0 (mkStore fs3 [] []) os_wd_as_file))) wd0 = Some NDir /\
+  view_at (st_fs (fst (pushes cfg_fixed false wd0 cwd0 (mkStore fs3 [] []) os_wd_as_file))) [b "victim"] = view_at fs3 [b "victim"].
+Proof. exact wd_as_file_ok. Qed.
